@@ -514,6 +514,8 @@ func getServer(pkg, prefix string) (*server, error) {
 			switch s.cur.Security[scheme] {
 			case "skip":
 				return ogenerrors.ErrSkipServerSecurity
+			case "reject-notimpl":
+				return fmt.Errorf("scheme %s: %w", scheme, errNotImplemented)
 			case "skip-wrapped":
 				return fmt.Errorf("scheme %s: %w", scheme, ogenerrors.ErrSkipServerSecurity)
 			case "reject":
